@@ -729,6 +729,36 @@ def run_prodaxes(ctx) -> RuleResult:
                 derivation=describe_path(path), construct="prod: axis sequence reduce/re-insert"))
     if n == 0:
         raise AnalysisError("prod: axis-sequence branch not recognised")
+    # _prod: the leading-slice tuple  (slice(None),) * axis  needs a non-negative axis
+    if "_prod" in module.functions:
+        pfunc = ctx.repo.raw_function(modname, "_prod")
+        pparams = [a.arg for a in pfunc.args.args]
+        seen_mul = set()
+        for path in ctx.paths_auto(module, pfunc):
+            for step in path:
+                for raw in step_exprs(step):
+                    for node in ast.walk(raw):
+                        if isinstance(node, ast.BinOp) and isinstance(node.op, ast.Mult) and "slice(None)" in U(node.left) \
+                                and (id(node), id(step.facts)) not in seen_mul:
+                            seen_mul.add((id(node), id(step.facts)))
+                            count = step.expand(node.right)
+                            if not (is_param(count) and count.id[1:] in pparams):
+                                result.ob("_prod: the slice tuple is repeated by a normalised axis", True,
+                                          module.loc(step.orig), _txt(count)[:60])
+                                continue
+                            nonneg = any(pol is False and isinstance(t, ast.Compare) and len(t.ops) == 1
+                                         and isinstance(t.ops[0], ast.Lt) and is_param(t.left, count.id[1:])
+                                         and isinstance(t.comparators[0], ast.Constant) and t.comparators[0].value == 0
+                                         for t, pol in step.fact_items())
+                            result.ob("_prod: the slice tuple is repeated by a non-negative axis", nonneg,
+                                      module.loc(step.orig), _txt(count)[:60])
+                            if not nonneg:
+                                result.add(Finding(
+                                    "R-PRODAXES", module, "_prod", node,
+                                    f"'(slice(None),) * {U(node.right)}' uses the caller's axis as it came in: for a negative axis the "
+                                    f"tuple is empty, so slices are taken along axis 0 while the loop count comes from "
+                                    f"a.shape[axis] - normalise first (axis + a.ndim if axis < 0 else axis)",
+                                    derivation=describe_path(path), construct="_prod: negative axis"))
     result.floor = 1
     return result
 
